@@ -158,4 +158,5 @@ def run(facts, chk, tier, only=None):
     # over tables holding every row content; result (names, k-mers, rows, counts) == table built from the remaining samples;
     # unknown / all / no names panic.  Replaces the shape rules C08.guard:delete_samples, C08.recount and C08.names.
     from . import tableops
+    chk.guard('C08.func', 'C08.func:wide:run', lambda: tableops.check_wide(facts, chk, 'C08.func', tier))
     chk.guard('C08.func', 'C08.func:delete_samples', lambda: tableops.check_delete(facts, chk, 'C08.func', tier))
